@@ -503,6 +503,11 @@ func (w *W) runLife(a *inst.Inst, ctx *explore.Ctx, totalSteps *int, put func(a 
 					if lc, _, err := fleet.SnapLC(data); err == nil {
 						if v, ok := lc["d"]["ka"]; !ok || v.Deleted || v.Val != want {
 							mode := map[bool]string{true: "native", false: "shadow"}[cfg.Native]
+							if !cfg.Native && w.putHook == "send.afterTxn" {
+								// the commit landed in the window behind SendOnce's write transaction (see the C03/C09
+								// findings on that window): named, so that it is told apart from any other loss
+								mode += ":commit@send.afterTxn"
+							}
 							w.viol("c09:restart:"+mode+":not-published", fmt.Sprintf("life %d: the loop is idle, the application wrote ka=%s in this life, the newest own snapshot %s has %v (present=%v)", w.life, want, n, v, ok))
 						}
 					}
